@@ -51,6 +51,10 @@ pub struct Plan {
     /// swarm knob: size of each node's in-memory record cache (0 = default 25)
     #[serde(default)]
     pub cache: usize,
+    /// swarm knob: register 0 belongs to the fixed big-register owner; every upload of it carries a share (505..520)
+    /// of that owner's pre-signed block of ops, so divergent replicas each hold more than half the entry limit
+    #[serde(default)]
+    pub big_registers: bool,
 }
 
 pub struct ClusterSim;
@@ -140,6 +144,7 @@ impl Sim for ClusterSim {
             steps,
             final_rounds: 6,
             cache: *rng.pick(&[0usize, 0, 1, 2]),
+            big_registers: rng.chance(1, 30),
         }
     }
 
